@@ -17,6 +17,7 @@ from common import driver, sx, parse_sx
 from props import c04_real as R
 from props import c04
 from props import c03_stmts as S
+from props import c03_gen
 
 WITNESS_ACCESS = [
     "src/psyclone/tests/test_files/dynamo0p3/infrastructure/field/field_mod.f90",
@@ -533,12 +534,22 @@ def run(chk):
                        "half after <=3 accepted symbol-adding transformations, i.e. with inner-scope symbols); "
                        "per case w1 = write(read(src)), w2 = write(read(w1)), w1 == w2; per exported unit the model's "
                        "symbol order after re-reading and its stable/unstable verdict are compared with the real ones. "
-                       "non-trivial = an accepted file / a unit with >= 3 symbols; distinct by canonical JSON")
+                       "PLUS, enumerated systematically: every type-correct (parent operator, child operator, side) "
+                       "with and without source parentheses, three-level sign and logical shapes, signed literal "
+                       "operands (1001 shapes + seeded random trees), each as an assignment and in a statement / "
+                       "declaration position rotating with the seed (thorough: every position); 201 SELECT CASE "
+                       "constructs (selector kind x value lists / ranges x DEFAULT position); a 63-entry catalogue of "
+                       "statement kinds and random nestings of them; packed programs, the smallest unstable one is "
+                       "isolated; written expression text and verdict compared with the model (driver `exprtext`). "
+                       "non-trivial = an accepted file / a unit with >= 3 symbols / an accepted statement; distinct by canonical JSON")
     chk.assumptions += ["comments are dropped by the pinned reader (not part of the PSyIR), so comment stability is vacuous",
                         "Python set iteration order in process_access_statements makes pass 1 itself depend on "
                         "PYTHONHASHSEED for wildcard-imported names (classified under C03-access-order)",
-                        "the exporter of c04_real.py is trusted"]
-    chk.lean()
+                        "the exporter of c04_real.py is trusted",
+                        "statement skeletons (keywords, nesting, names) are opaque in the model: their stability is "
+                        "decided by the differential run only; expressions in the model are over scalar names and "
+                        "integer / logical literals (other operands only in the differential run)"]
+    chk.lean(gen=c03_gen.gen)
     sorts = writer_sorts_access()
     chk.cov["writer_sorts_access_names"] = sorts
     known = {e["id"]: e for e in common.known_findings("C03")}
